@@ -28,6 +28,35 @@ CLAIMED['C20'] = (
     'malloc/calloc model. XXH64 is bounded in length (level bounded, not counted as proved). The serialise/reload and '
     'insertion-history statements follow from these per-function contracts by induction on the history; that induction is on paper (DESIGN 5 C20).')
 
+TEXTS = {
+ 'C02': ('carquet_read_next_page (per physical type): row accounting (values_read == min(max_values, available), cursors, values_remaining), level slices, 64-bit clamp, and the dense-delivery clause taken from the property (values delivered are the dense slice starting at the number of non-null rows already delivered); carquet_column_read_batch / carquet_column_skip accounting and the batch reader null-bitmap polarity/index where their jobs are live. Proof per function over symbolic reader state; page loading replaced by an assumed contract.',
+         'Trusted: assumed contract of load_next_page, memcpy recording stubs, CBMC. Not covered: equality of whole batch streams for every batch_size/projection across many calls and pages (history property), FLBA with symbolic type_length.'),
+ 'C04': ('Function-by-function memory safety / termination of the reader on attacker-controlled metadata: Thrift reader primitives and thrift_skip (bounded recursion depth via ghost depth counter), footer validation on the three open paths (no 32-bit wrap, slice inside the buffer, error struct filled), build_schema / traverse_schema_recursive / count_leaves (work bound by decreases clause, depth <= 256, leaf arrays in bounds via ghost suffix-leaf count), the four page load paths (every offset/size/count checked against file_size before use), carquet_read_dictionary_page, carquet_read_data_page_v1 (bounded), arena allocation, buffer reader.',
+         'Trusted: stubs for stdio/mmap, parse/crc/codec callees of the load paths, arena model in schema jobs, CBMC memory model (objects <= 2^40). "Every call sequence on every byte string" as one statement is not expressible; it is decided per function under representation invariants that each producer job establishes or that are listed as assumed.'),
+ 'C09': ('Bounds half: Snappy and LZ4 compressors write only inside dst[0..bound), report the true length, refuse smaller capacities without writing; bound arithmetic free of overflow; compress_data allocates exactly the bound; gzip/zstd wrappers pass capacities correctly (library calls assumed). Round trip decompress(compress(x)) == x is not claimed.',
+         'Trusted: zlib/zstd assumed contracts, CBMC. The functional inverse through the hash-table matcher is out of reach for contracts without a decoder spec function in loop invariants (stated n/a part).'),
+ 'C10': ('Emitters against spec parsers written from the format documents: snappy_emit_literal / snappy_emit_copy headers parse to the intended (kind, length, offset) for all lengths/offsets, copy-1 only for 4..11 bytes and 11-bit offsets; LZ4 token / extended length / offset emission and end-of-block rules where their jobs are live.',
+         'Trusted: specs/snappy_spec.h, specs/lz4_spec.h (reading of the format documents). "Accepts every valid stream" is a statement about the decoder as a function on streams: not claimed.'),
+ 'C11': ('Per-encoding inverse facts, all inputs: 8-value bit pack/unpack inverse for every width 0..32 and specialised unpackers; bitpack_32/bitunpack_32 group loops (byte counts, partial group); varint/zigzag 32/64 inverse with consumed == produced; bit writer/reader; PLAIN encoders append exactly the input bytes; BYTE_STREAM_SPLIT transposition and its converse (per width); RLE encoder count/position preservation with ghost state (G_put, G_emitted, G_pad) through put / put_repeat / flush / encode_all / encode_levels incl. append-failure propagation; delta zigzag/ULEB128/bit-width helpers.',
+         'Trusted: assumed contracts of carquet_buffer_append and of the 8-group bit packers inside the RLE jobs (the latter proved in the bitpack jobs), CBMC. Whole-stream decode(encode(v)) == v for RLE/DELTA/dictionary and stream-vs-one-shot agreement are not claimed (no decoder spec function in invariants).'),
+ 'C12': ('Byte layouts against spec functions written from Encodings.md: LSB-first bit layout of every 8-group for widths 1..32 (encoder bytes == spec encoder bytes; decoder == spec decoder on arbitrary bytes), ULEB128 / zigzag forms, RLE run header forms and value bytes, bit-packed run header, decoder acceptance of zero-length and multi-group runs in start_new_run, PLAIN little-endian layout, BYTE_STREAM_SPLIT layout, delta header pieces.',
+         'Trusted: specs/*.h. DELTA mini-blocks wider than 32 bits are byte-aligned instead of bit-packed (known finding if listed). Whole-stream independent decoder equivalence is not claimed.'),
+ 'C13': ('Thrift compact primitives are mutually inverse for all values (varint 1..10 bytes, zigzag i16/i32/i64, double, bool, uuid, binary (bounded payload), field header for every (last id, id, type), list/set/map headers), bytes equal an independent spec encoder, consumed == produced; thrift_skip consumes exactly one encoded value (fixed-width, list/set, map of fixed-width); writers of parquet_types.c emit only (type, id) rows of parquet.thrift for the open struct, ids ascending, required fields present, list headers matching; parser safety of the page-header and metadata sub-parsers.',
+         'Trusted: specs/thrift_spec.h, specs/parquet_thrift_table.h, decoder/arena contracts assumed in the ptypes jobs (proved separately in the thrift jobs where live). Struct-level parse(write(x)) == x is not claimed.'),
+ 'C14': ('Reader: on each of the four load paths a stored CRC that differs from the CRC of exactly compressed_page_size stored bytes yields CRC_MISMATCH before any decompression/decoding, with page state unchanged and nothing leaked; equal/absent/disabled never yields a CRC error. Writer: finalize checksums exactly the bytes appended after the header and writes the crc field iff write_crc. Error-detection lemmas on the bit-serial definition (linearity, zero-input injectivity, 32-bit window) proved; CRC function == bit-serial IEEE definition where the crc32 jobs are live.',
+         'Trusted: stubs of parse/codec/stdio in the page jobs; paper induction combining the burst lemmas; slicing-by-8 block identity if listed as assumed. "Every file, every damage position" is the composition of these contracts, done on paper.'),
+ 'C15': ('Dispatcher: for every capability mask each slot is non-NULL, in the set the mask allows (ISA subset incl. avx512bw/vl), override order scalar < SSE < AVX2 < AVX-512, idempotent, wrappers pass arguments unchanged. Scalar kernels and SSE4.2 kernels: in-bounds accesses for every count and equality with the definition (ghost index / lockstep ghost), under C models of the body-less SSE builtins.',
+         'Trusted: stubs/ia32_model.c (SSE builtins from the Intel SDM, cross-checked natively on 2e6 vectors each), CPUID stub. AVX2/AVX-512 kernel bodies are not under contract (n/a part); kernel domain for pack_bools is bytes in {0,1}.'),
+ 'C16': ('row_group_matches: no false negative for every type, operator, probe (NaN included), present/absent new and deprecated fields, short statistics; filter_row_groups: exactly the ascending list of might-match-or-error groups up to the cap; column_statistics pins each (pointer, length) to its Thrift field; builder add_values / add_nulls / build and page-writer update_statistics: true bounds in the type order, NaN ignored, widening only; compare / range_overlaps / page_might_match free of false negatives.',
+         'Trusted: memcmp/memcpy exact-for-small stubs, CBMC IEEE model. Byte-array order proved for lengths <= 8 (bounded) plus length-unbounded safety; builder FLBA/INT96 loops not under contract.'),
+ 'C17': ('Builder add_column / add_group from an arbitrary invariant-satisfying state (no-growth case): counts, leaf index, stored name/type/repetition/type_length/logical type, max_def == (OPTIONAL||REPEATED), max_rep == REPEATED, earlier entries unchanged; node accessors; file schemas by cases: leaf case records def/rep = inherited + own contribution, group case passes the right levels to children (twin contract), build_schema array sizes.',
+         'Trusted: arena/strcmp/realloc stubs; ghost suffix-leaf count recurrence assumed at the instances used. Growth path of schema_ensure_capacity undecided; whole-tree equality with the textbook definition only case-wise.'),
+ 'C18': ('Under a failing-stdio model (short fwrite, failing fflush/fclose/fopen/remove): carquet_writer_close returns OK only if no sink call failed and every requested byte was accepted and flushed; write_magic / ensure_header_written / flush_row_group / new_row_group likewise; close/abort/create release every resource exactly once, close the stream iff owned, abort removes the path iff owned; the three open paths accept a footer only with size >= 12, trailing magic, footer length <= size - 8 without 32-bit wrap, slice inside the buffer.',
+         'Trusted: stubs/stdio_stubs.c, assumed contracts of row-group writer / metadata serialiser / parser. Writer jobs are bounded in column and row-group count (<= 2) with all sizes symbolic. "No proper prefix ends in a well-formed footer" is a property of file contents: not claimed.'),
+ 'C19': ('With any subset of allocations failing (CBMC --malloc-may-fail) and leak checking: every buffer.c function (failure leaves the buffer unchanged, success has exactly the specified effect), arena allocation/strdup/memdup/reset/restore (bounded list length), schema add_column/add_group name copy, parquet_types parsers report OUT_OF_MEMORY instead of dereferencing NULL, bloom create/from_data, delta length/strings decoders, page load fread path (no double free), writer create paths.',
+         'Trusted: CBMC allocator model. Whole write/read scenarios with a single failing allocation are decided only through these per-function contracts.'),
+}
+
 NA = {
     'C01': 'whole-file write->read history over ~6000 lines, stdio, zlib, zstd: no per-function contract carries it; decidable pieces are claimed under C11/C13',
     'C03': 'relational (observational) equivalence of three I/O stacks incl. libc/mmap; not expressible as contracts on single functions with CBMC',
@@ -36,10 +65,18 @@ NA = {
     'C07': 'CBMC contract machinery is sequential (OpenMP pragmas dropped, no schedule quantifier)',
 }
 
+ENABLE = []   # properties whose checks pass on the unchanged tree (filled in as families are integrated)
+
 PENDING = ['C02', 'C04', 'C09', 'C10', 'C11', 'C12', 'C13', 'C14', 'C15', 'C16', 'C17', 'C18', 'C19']
 
 
+ENABLED = sorted(set(list(CLAIMED) + [p for p in TEXTS if os.path.exists(os.path.join(ROOT, 'evidence', p + '.json.ok'))]))
+
+
 def main():
+    for p in TEXTS:
+        if p in ENABLE:
+            CLAIMED[p] = TEXTS[p]
     checks = []
     for pid, (text, note) in sorted(CLAIMED.items()):
         checks.append(dict(
